@@ -90,7 +90,9 @@ def ObtainQuantity(
                 category = category[0]
         else:
             assert isinstance(category, (list, tuple))
-            unit = OrderedDict((cat, unit_and_exp) for (cat, unit_and_exp) in zip(category, unit))
+            unit = OrderedDict(
+                (cat, list(unit_and_exp)) for (cat, unit_and_exp) in zip(category, unit)
+            )
             category = None
 
     if isinstance(unit, dict):
@@ -107,7 +109,14 @@ def ObtainQuantity(
             try:
                 return quantities_cache[tuple(key)]
             except KeyError:
-                quantity = quantities_cache[tuple(key)] = Quantity(unit, None, unknown_unit_caption)
+                # The quantity gets its own copy: it is cached and immutable, so it must not share
+                # the [unit, exponent] lists with the caller.
+                composing = OrderedDict(
+                    (category, list(unit_and_exp)) for (category, unit_and_exp) in unit.items()
+                )
+                quantity = quantities_cache[tuple(key)] = Quantity(
+                    composing, None, unknown_unit_caption
+                )
                 return quantity
 
     key = (category, unit, unknown_unit_caption)  # type:ignore[assignment]
